@@ -153,7 +153,7 @@ def step(ctx, rng, t, m, log):
             toks.append((s, real_style(rng, rec) if rec else None))
             mtoks.append((s, rec))
         log.append([op, [(s, G.definition(r) if r else None) for s, r in mtoks]])
-        t.append_tokens(toks)
+        t.append_tokens(_as_iterable(rng, toks, log))
         for s, rec in mtoks:
             m.append_str(s, rec, strip=False)
     elif op == "assemble":
@@ -187,7 +187,7 @@ def step(ctx, rng, t, m, log):
         pos = rng.randint(0, len(others))
         pieces = others[:pos] + [(t, m)] + others[pos:]
         log.append([op, sep_m.plain, [p[1].plain for p in pieces]])
-        t = sep_t.join([p[0] for p in pieces])
+        t = sep_t.join(_as_iterable(rng, [p[0] for p in pieces], log))
         newm = M.TM([], sep_m.base)
         for k, (_, pm) in enumerate(pieces):
             if k and sep_m.plain:
@@ -212,7 +212,7 @@ def step(ctx, rng, t, m, log):
         k = rng.randint(0, 4)
         offsets = sorted(rng.choice([0, n, rng.randint(0, n), rng.randint(0, n)]) for _ in range(k))
         log.append([op, offsets])
-        lines = t.divide(offsets)
+        lines = t.divide(_as_iterable(rng, offsets, log))
         if not offsets:
             bounds = [(0, n)]
         else:
@@ -379,7 +379,7 @@ def step(ctx, rng, t, m, log):
         log.append([op, words, G.definition(rec), cs])
         if words:
             import re
-            t.highlight_words(words, real_style(rng, rec), case_sensitive=cs)
+            t.highlight_words(_as_iterable(rng, words, log), real_style(rng, rec), case_sensitive=cs)
             pat = "|".join(re.escape(w) for w in words)
             for mt in re.finditer(pat, m.plain, flags=0 if cs else re.IGNORECASE):
                 m.stylize_range(rec, mt.start(), mt.end())
@@ -433,6 +433,20 @@ def _choose_piece(ctx, rng, lines, mpieces, log, op):
     i = rng.randrange(len(lines))
     log[-1].append({"continue_on": i})
     return lines[i], mpieces[i], op, ok
+
+
+def _as_iterable(rng, items, log):
+    """The parameter is declared Iterable[...]: hand it over as a list, a tuple, or a one-shot iterator / generator
+    (what `x.join(f(p) for p in parts)` passes)."""
+    r = rng.random()
+    if r < 0.5:
+        return list(items)
+    if r < 0.6:
+        return tuple(items)
+    log[-1].append("passed-as-one-shot-iterator")
+    if r < 0.8:
+        return iter(list(items))
+    return (x for x in list(items))
 
 
 DERIVING_OPS = {"split", "divide", "fit", "index", "slice", "copy", "add", "join", "assemble"}
